@@ -75,11 +75,32 @@ def diff(before, after, allow_window=False):
     return out
 
 
-MUTATIONS = ("add_new_label", "add_annotator", "remove_unit", "reset_bounds")
+MUTATIONS = ("add_new_label", "add_annotator", "remove_unit", "reset_bounds",
+             "merge_into", "cst_splits", "cst_shift", "cst_false_neg", "cst_category")
 
 
-def mutate(c, how):
+def mutate(c, how, spec=None):
+    """In-place mutators of the public API: Continuum methods and the perturbations of the shuffling tool
+    (which modify the continuum they are given)."""
     from pyannote.core import Segment
+    if how == "merge_into":
+        c.merge(build_continuum(cont(("zz_new", [(200, 201, "x")]))), in_place=True)
+        for a in c.annotators:
+            c.add(a, Segment(300, 301), "x")
+        return
+    if how.startswith("cst_"):
+        from ..load import load
+        pa = load()
+        if not c or any(len(list(c.iter_annotator(a))) == 0 for a in c.annotators):
+            return  # the perturbations need every annotator to have a unit
+        np.random.seed(17)
+        tool = pa.CorpusShufflingTool(1.0, build_continuum(spec))  # its own reference object, same labels
+        labels = {u[2] for _, us in spec["annotators"] for u in us}
+        if how == "cst_category" and not all(u.annotation in labels for _, u in c):
+            return
+        {"cst_splits": tool.splits_shuffle, "cst_shift": tool.shift_shuffle, "cst_false_neg": tool.false_neg_shuffle,
+         "cst_category": tool.category_shuffle}[how](c)
+        return
     if how == "add_new_label":
         a = c.annotators[0] if len(c.annotators) else "a"
         c.add(a, Segment(100, 101), "NEWLABEL")
@@ -279,7 +300,7 @@ def run_case(pa, E, iname, recipe, ename, mutation):
     for i, dv in enumerate(derived):
         siblings = [(j, snap_c(o)) for j, o in enumerate(derived) if j != i and o is not dv]
         try:
-            mutate(dv, mutation)
+            mutate(dv, mutation, spec)
         except Exception as e:  # noqa
             probs.append(f"mutation {mutation} of result #{i} of {ename} raised {type(e).__name__}: {e}")
             continue
@@ -294,7 +315,7 @@ def run_case(pa, E, iname, recipe, ename, mutation):
     if not probs and derived:
         snaps = [snap_c(o) for o in derived]
         try:
-            mutate(c, mutation)
+            mutate(c, mutation, spec)
         except Exception as e:  # noqa
             return probs, len(derived)
         for j, sb in enumerate(snaps):
